@@ -179,6 +179,19 @@ def perms : List Pid → List (List Pid)
   | [] => [[]]
   | x :: xs => (perms xs).flatMap (fun p => (List.range (p.length + 1)).map (fun i => p.take i ++ [x] ++ p.drop i))
 
+/-- Go map order at the end of COMMIT (`ListAllValues`, first non-bottom value): the model's association list
+is in insertion order; every rotation that puts another non-bottom committed value first is an equally
+admissible iteration order of the Go map. -/
+def mapOrderVariants (s : State) : List State :=
+  let rs := s.getRound s.round
+  let sup := rs.committed.support
+  (List.range sup.length).filterMap (fun i =>
+    match sup[i]? with
+    | some sp =>
+      if i == 0 || sp.chain.isEmpty then none
+      else some (s.setRound s.round { rs with committed := { rs.committed with support := sp :: (sup.take i ++ sup.drop (i + 1)) } })
+    | none => none)
+
 def processOp (st : St) (pid : Pid) (kind : String) (now : Int) (detail effsS progS retS : String) : St × Verdict :=
   match lookup st.models pid, lookup st.obs pid with
   | some m, some o =>
@@ -216,7 +229,14 @@ def processOp (st : St) (pid : Pid) (kind : String) (now : Int) (detail effsS pr
       -- effects, search the sender permutations (bounded) for one that does
       let (m', effs) :=
         let r0 := pstep m op
-        if agrees r0 || m.started || (sendersOf m.queue).length ≤ 1 then r0
+        if agrees r0 then r0
+        else if m.started then
+          -- Go map order among several non-bottom COMMIT values (only reachable with ≥ 1/3 of the power
+          -- equivocating, i.e. in script mode): accept the implementation's choice if some order yields it
+          match (mapOrderVariants m.inst).find? (fun v => agrees (pstep { m with inst := v } op)) with
+          | some v => pstep { m with inst := v } op
+          | none => r0
+        else if (sendersOf m.queue).length ≤ 1 then r0
         else
           let ss := sendersOf m.queue
           let cands := if ss.length ≤ 6 then perms ss else (List.range ss.length).map (fun i => ss.drop i ++ ss.take i) ++ [ss.reverse]
@@ -318,7 +338,8 @@ def endRun (st : St) (gst delta : Int) (now : Int) (capped : Bool) (gstRound dec
     let base := (honest.head?.map (·.2.input.take 1)).getD []
     let bad2 := decs.filter (fun d => d.2.value.isEmpty || d.2.value.take 1 != base ||
       !(honest.any (fun h => isPrefixOf d.2.value h.2.input)))
-    if !bad2.isEmpty then .oracle ("C02-invalid-decision " ++ "; ".intercalate (bad2.map (fun d => s!"{d.1}:{chainStr d.2.value}")))
+    -- (script mode: every other member is driven by the harness, no < 1/3 bound — validity is not expected)
+    if st.mode != "script" && !bad2.isEmpty then .oracle ("C02-invalid-decision " ++ "; ".intercalate (bad2.map (fun d => s!"{d.1}:{chainStr d.2.value}")))
     else
       -- C03 justification shape
       let bad3 := decs.filter (fun d =>
